@@ -33,7 +33,7 @@ CHECKS = {
          "invalid extension, rendered with varied spellings, duplicates and mixed arrays injected and tracked, overrides off/on, against "
          "an independent recogniser of the documented grammar (direct oracle: accept/reject and error class by first offence) and against "
          "the model (result, error text/line, full tree with source lines)."),
-   note=TB + "Completeness (derivable => accepted) is exhaustive-to-bound (quick: length 6, thorough: 8), not a theorem; known findings C02:string-element-mismatch-line and C02:parser-stack-limit are reproduced by the model.",
+   note=TB + "Completeness (derivable => accepted) is exhaustive-to-bound (quick: length 6, thorough: 9), not a theorem; known findings C02:string-element-mismatch-line and C02:parser-stack-limit are reproduced by the model.",
    technique='LR soundness theorem over translated LALR tables (kernel-decided certificate check + loop invariant) in Lean 4; exhaustive-to-bound correspondence against an independent grammar recogniser', ref='§5 C02'),
  'C04': dict(
    text=("Theorem C04_step: every API operation other than a read, with arbitrary arguments, preserves the well-formedness invariant "
